@@ -54,6 +54,16 @@ func (w gzipResponseWriter) WriteHeader(statusCode int) {
 	w.ResponseWriter.WriteHeader(statusCode)
 }
 
+// validCollectionName reports whether name can be used as a file name inside
+// the data folder: it must be non-empty and must not contain a path separator
+// or a NUL byte, so that the collection file cannot land in another directory.
+func validCollectionName(name string) bool {
+	if name == "" {
+		return false
+	}
+	return !strings.ContainsAny(name, "/\\\x00")
+}
+
 func (s *Server) collectionNameToFileName(name string) string {
 	return filepath.Join(globalConfig.DataFolder, name+".dat")
 }
@@ -82,6 +92,11 @@ func (s *Server) handleCollections(w http.ResponseWriter, r *http.Request) {
 		}
 
 		log.Printf("Creating collection with options: %+v", temp)
+
+		if !validCollectionName(temp.Name) {
+			writeErrorResponse(w, "Invalid collection name", http.StatusBadRequest)
+			return
+		}
 
 		opts := CollectionOptions{
 			Name:           temp.Name,
